@@ -9,6 +9,7 @@ pub mod c09;
 pub mod c10;
 pub mod common;
 pub mod rig;
+pub mod robs;
 
 use crate::evidence::Ctx;
 
@@ -19,6 +20,8 @@ pub fn dispatch(ctx: &Ctx) -> Option<i32> {
         "C03" => c03_check(ctx),
         "C04" => c04_check(ctx),
         "C06" => c06_check(ctx),
+        "C13" => c13_check(ctx),
+        "C14" => c14_check(ctx),
         "C07" => c07_check(ctx),
         "C08" => c08_check(ctx),
         "C09" => c09_check(ctx),
@@ -301,5 +304,35 @@ fn c04_check(ctx: &Ctx) -> i32 {
     for (phase, run, seed) in agg.stuck.clone() {
         agg.viols.push((phase, run, seed, crate::evidence::Viol { signature: "C04:stuck-helper-thread".into(), detail: "run did not reach quiescence: all threads of the shard blocked, progress counter frozen (OS-level quiescence)".into(), replay: serde_json::json!({"run": run, "seed": seed}) }));
     }
+    finish(ctx, agg, rep)
+}
+
+fn c13_check(ctx: &Ctx) -> i32 {
+    let budget = Duration::from_secs(ctx.tier.pick(30, 360));
+    let agg = shard_runs(ctx, "main", ctx.tier.pick(60_000, 3_000_000), budget, Duration::from_secs(30), Arc::new(robs::c13_run));
+    let rep = Report {
+        level: "exploration",
+        rule: "one case = (collection in {vec, vec_deque, hash_map, hash_set, list}, random initial content, 1-60 operations over the whole mutating API incl. entry API, get_mut/iter_mut with and without writes, retain (hash_map also with a mutating closure), resize up/down, swap-remove variants, truncate, fill, extend, no-op cases; subscription point anywhere in the sequence; snapshot or incremental; mirror local / over a connection / re-subscribed from a mirror). Non-trivial iff >=1 operation follows the subscription point. Distinct by hash of the tuple.".into(),
+        explanation: "At quiescence (buffers larger than the history, nothing lags): Mirrored::borrow must be Ok and equal the observable's own contents, is_done must equal 'done() was called', is_complete must hold; an independent applier in the harness consuming a second subscription's event stream must reach the same contents. A difference that is exactly 'values mutated inside hash_map retain() are not reported' is attributed to the known finding only if the mirror equals the hand-applied event stream.".into(),
+        assumptions: vec!["the observable's Deref contents are the ground truth".into()],
+        exhaustive: false,
+        min_nontrivial: ctx.tier.pick(2000, 20000),
+        extra: BTreeMap::new(),
+    };
+    finish(ctx, agg, rep)
+}
+
+fn c14_check(ctx: &Ctx) -> i32 {
+    let budget = Duration::from_secs(ctx.tier.pick(30, 360));
+    let agg = shard_runs(ctx, "main", ctx.tier.pick(40_000, 2_000_000), budget, Duration::from_secs(30), Arc::new(robs::c14_run));
+    let rep = Report {
+        level: "exploration",
+        rule: "one case = (collection, variant in {lag: event buffer 1-4 with bursts of 1-7 operations without yielding; drop: observed collection dropped before done at a random burst; maxsize: mirror limit 1-6 reached through any growing event or an initial snapshot that is already too large; cut: remote mirror with a transport fault at a random frame; list: 1-4 subscribers joining at any time, slow readers, local or remote}, operation bursts, snapshot/incremental). Every case is non-trivial; distinct by hash of the tuple incl. operations.".into(),
+        explanation: "Reference = a never-lagging second subscription applied event by event by the harness (C13 establishes that this stream is right). At every checkpoint (quiescence) a mirror that answers Ok must present exactly the current state of the event history; after it reported an error it must keep reporting one; the error class must fit what happened (Lagged / Closed / MaxSizeExceeded / Remote*); detach() after an error must return a state of the history; list subscribers must receive every element exactly once in order.".into(),
+        assumptions: vec!["judged at quiescence only (transient states while events are in flight are not judged)".into()],
+        exhaustive: false,
+        min_nontrivial: ctx.tier.pick(2000, 20000),
+        extra: BTreeMap::new(),
+    };
     finish(ctx, agg, rep)
 }
